@@ -78,10 +78,15 @@ def r1_header(ctx, res):
     res.inst(key, hv.loc(), 'compares the declaration with _XMLDECL and looks the DOCTYPE up in _DOCTYPES')
     raises = [r for r in hv.rows if r[0] == 'raise' and r[1].startswith('LMFError(')]
     r_decl = [r for r in raises if any(g.endswith('!= _XMLDECL') for g in r[2])]
-    r_doct = [r for r in raises if any(g.endswith('not in _DOCTYPES') for g in r[2])]
+    # membership may be spelled `k in _DOCTYPES` or `_DOCTYPES.get(k) is not None` (no value of the table is None)
+    none_free = all(v is not None for v in doctypes.values())
+    absent = lambda g: g.endswith('not in _DOCTYPES') or (none_free and g.startswith('_DOCTYPES.get(') and g.endswith(') is None'))   # noqa: E731
+    present = lambda g: (g.endswith(' in _DOCTYPES') and ' not in ' not in g) \
+        or (none_free and g.startswith('_DOCTYPES.get(') and g.endswith(') is not None'))   # noqa: E731
+    r_doct = [r for r in raises if any(absent(g) for g in r[2])]
     rets = [r for r in hv.rows if r[0] == 'return']
-    ok = len(r_decl) == 1 and len(r_doct) == 1 and len(rets) == 1 and rets[0][1].startswith('_DOCTYPES[') \
-        and any(g.endswith('== _XMLDECL') for g in rets[0][2]) and any(g.endswith(' in _DOCTYPES') and ' not in ' not in g for g in rets[0][2])
+    ok = len(r_decl) == 1 and len(r_doct) == 1 and len(rets) == 1 and rets[0][1].startswith(('_DOCTYPES[', '_DOCTYPES.get(')) \
+        and any(g.endswith('== _XMLDECL') for g in rets[0][2]) and any(present(g) for g in rets[0][2])
     if not ok:
         res.find(key, hv.loc(), f'_read_header no longer rejects a missing/other XML declaration and an unknown DOCTYPE with LMFError and '
                                 f'returns the version of the DOCTYPE: {hv.describe(("raise", "return"))}')
